@@ -219,7 +219,7 @@ Proof. intros. split; [now apply bn_bwd_derive|now apply bn_fwd_derive]. Qed.
 
 (* ---------------- the determinant step (mathcomp matrices; the reals as a commutative ring) ---------------- *)
 From mathcomp Require Import all_ssreflect all_fingroup all_algebra.
-From DV Require Import Proofs.DetRank Proofs.FlowJacobian Proofs.FlowLogDet.
+From DV Require Import Proofs.DetRank Proofs.FlowJacobian Proofs.FlowLogDet Proofs.MafCond Proofs.MafLogDet.
 
 (* any commutative ring: if J i j = 0 whenever i <> j and rank i <= rank j then det J is the product of
    the diagonal (rank = position in the ordering: autoregressive; rank = 0/1 by the mask: coupling;
@@ -240,6 +240,18 @@ Theorem C15_ar_logdet : forall (n : nat) (deg : nat -> nat) (cond : condT R),
   (forall i j : 'I_n, is_derive (partial (ar_map n cond) x i j) (List.nth j x 0%R) (J i j)) ->
   (\det J)%R = exp (snd (Rar_bwd n cond x)).
 Proof. exact ar_logdet. Qed.
+
+(* end to end for one MAF layer: the masked network with the masks of build_masks (ANY degree lists whose input degrees are
+   a permutation: sequential, reversed or random orderings), any weights, biases, activations and scale activation *)
+Theorem C15_maf_logdet : forall (d0 : list nat) (rest : list (list nat)) (Ls : list (mlayer R)) (sact : nat -> R -> R),
+  List.map (@l_mask R) Ls = tile_last (build_masks (d0 :: rest)) ->
+  (forall k, (k < length d0)%coq_nat -> List.In k d0) ->
+  let n := length d0 in
+  let cond := ar_cond R (IZR 0) (IZR 1) Rplus Rmult n Ls sact in
+  forall (x : list R) (J : 'M[R_comRingType]_n), length x = n ->
+  (forall i j : 'I_n, is_derive (partial (ar_map n cond) x i j) (List.nth j x 0%R) (J i j)) ->
+  (\det J)%R = exp (snd (Rar_bwd n cond x)).
+Proof. exact maf_logdet. Qed.
 
 (* affine coupling layer (1d alternating / 2d checkerboard masks as 0/1 vectors), conditioner = ANY function *)
 Theorem C15_coupling_logdet : forall (n : nat) (mask : nat -> bool) (cond : condT R)
@@ -300,3 +312,4 @@ Print Assumptions C15_det_chain.
 Print Assumptions C15_det_permutation.
 Print Assumptions C15_bn_logdet.
 Print Assumptions C15_logit_logdet.
+Print Assumptions C15_maf_logdet.
